@@ -177,7 +177,7 @@ def _decorate(rng, txt):
         txt = txt.replace("\n", "\r")             # old Mac / broken export
     elif r < 0.085:
         txt = rng.choice(("=", "@ ", "+", "-")) + txt
-    elif r < 0.095:
+    elif r < 0.11:
         a = rng.randint(1, 12)
         b = a + rng.randint(15, 22)
         t, rr = rng.randint(1, 160), rng.randint(1, 105)
